@@ -388,6 +388,7 @@ func (dsc *dataStoreCommand) getKeySetExpiration(keyName string, expiration time
 		if strBytes != nil {
 			val = string(strBytes)
 			sk.expiresAt = expiration
+			dsc.setDirty()
 		} else {
 			exists = VALUE_WRONG_TYPE
 		}
@@ -964,6 +965,7 @@ func (dsc *dataStoreCommand) expire(keyName string, expiration time.Time, nx, xx
 	}
 
 	sk.expiresAt = expiration
+	dsc.setDirty()
 	output.data = respInt(1)
 	return
 }
@@ -989,6 +991,7 @@ func (dsc *dataStoreCommand) persist(keyName string) (output respValue) {
 		return
 	}
 	sk.expiresAt = maxTime
+	dsc.setDirty()
 	output.data = respInt(1)
 	return
 }
@@ -1827,6 +1830,7 @@ func (dsc *dataStoreCommand) lset(keyName string, element string, count int) (ou
 	}
 
 	item.element = []byte(element)
+	dsc.setDirty()
 	output.data = rstrOK
 	return
 }
@@ -2127,6 +2131,7 @@ func (dsc *dataStoreCommand) fieldAddFloat(keyName, fieldName string, delta floa
 	}
 
 	m.store(fieldName, strconv.FormatFloat(value, 'f', -1, 64))
+	dsc.setDirty()
 	return
 }
 
